@@ -134,6 +134,20 @@ def run(run, binfo):
                     d_ = _p.RuleDefault('cat:rule', 'role:member', description=desc_, scope_types=scope_, **kw_)
                     reqs.append([15, ex_, [enc_default(d_)]])
                     infos.append(([d_], ex_))
+    # the constructors called the way their signatures allow: every argument positional, in the documented order
+    # (name, check_str, description, deprecated_rule, deprecated_for_removal, deprecated_reason, deprecated_since, scope_types)
+    for reason_ in ('going away', 'Remove your overrides:\nthey are ignored.', 'a: b\n"k": v\n- item', ''):
+        for since_ in ('N', '2024.1'):
+            for ex_ in (False, True):
+                pos = [_p.RuleDefault('pos:rule', 'role:member', 'Some text.', None, True, reason_, since_, ['project']),
+                       _p.DocumentedRuleDefault('pos:doc', 'role:reader', 'Documented.', [{'path': '/x', 'method': 'GET'}],
+                                                None, True, reason_, since_),
+                       _p.RuleDefault('pos:ren', 'role:new', 'Renamed.',
+                                      _p.DeprecatedRule('pos:old', 'role:old', deprecated_reason=reason_ or 'r',
+                                                        deprecated_since=since_))]
+                for d_ in pos:
+                    reqs.append([15, ex_, [enc_default(d_)]])
+                    infos.append(([d_], ex_))
     for (ds, ex), ans in zip(infos, run_batch(reqs)):
         run.evaluations += 1
         desc = {'defaults': [(d.name, d.check_str, d.description) for d in ds], 'exclude_deprecated': ex}
